@@ -112,7 +112,7 @@ var lgTable = []lgEntry{
 	{Rule: "L1", Func: "native.checkNativeSelectable", Site: "return nil", Goal: "(!$t.RequiresIterator() && !$t.F())", Props: []string{"C04", "C16"}, Why: "native selection hands out windows of the raw backing array"},
 	// ---- writers (C14) -------------------------------------------------------------------------------
 	{Rule: "L1", Func: "tensor.(*Dense).WriteNpy", Site: "for ($r.len() > %i)", Decides: []string{"$r.RequiresIterator()"}, Props: []string{"C14", "C16"}, Why: "the flat Get(i) loop emits storage order; .npy is declared C-ordered"},
-	{Rule: "L1", Func: "tensor.(*Dense).GobEncode", Site: ".Encode(&%data)", Decides: []string{"$r.IsMaterializable()"}, Props: []string{"C14"}, Why: "a view's whole storage window is written under the view's shape: the decoder's sanity check rejects it"},
+	{Rule: "L1", Func: "tensor.(*Dense).GobEncode", Site: ".Encode(&%data)", Decides: []string{"$r.IsMaterializable()"}, OrStep: ".Materialize()", Props: []string{"C14"}, Why: "a view's whole storage window is written under the view's shape: the decoder's sanity check rejects it"},
 	{Rule: "F5", Func: "tensor.(*Dense).WriteNpy", Site: "'shape': (%d,)", Goal: "($r.Dims() == 1)", Props: []string{"C14"}, Why: "the one-element tuple header is only the shape of a rank-1 tensor"},
 	// ---- float engines (C20) ---------------------------------------------------------------------
 	{Rule: "L1", Func: "tensor.(Float64Engine).Add", Site: "V.", Goal: "(!$a.RequiresIterator() && !$b.RequiresIterator())", Props: []string{"C20"}, Why: "the vecf fast path reads raw storage of both operands"},
@@ -319,7 +319,7 @@ func LGuards(rc *RC, prop string) {
 				}
 				for _, d := range e.Decides {
 					a := normAtomsGeneral(ir.ParseBool(d))
-					if !ir.Implies(f, a) && !ir.Implies(f, ir.BNot(a)) {
+					if !ir.Implies(f, a) && !ir.Implies(f, ir.BNot(a)) && !ir.DependsOn(f, a) {
 						bad = append(bad, fmt.Sprintf("reached with [%s] without a test of %s", strings.Join(p.Guards, " && "), d))
 					}
 				}
